@@ -274,7 +274,7 @@ func (handler *Handler) ProxyClientConnection(ctx context.Context, errCh chan<- 
 		timerObserveFunc()
 		packetSpanEndFunc()
 
-		packet, err := ReadPacket(handler.clientConnection)
+		packet, err := ReadClientPacket(handler.clientConnection)
 		if err != nil {
 			handler.logger.WithError(err).WithField(logging.FieldKeyEventCode, logging.EventCodeErrorResponseConnectorCantReadFromClient).
 				Debugln("Can't read packet from client")
@@ -388,6 +388,16 @@ func (handler *Handler) ProxyClientConnection(ctx context.Context, errCh chan<- 
 			continue
 		}
 		data := packet.GetData()
+		if len(data) == 0 {
+			// not a command: the empty packet that ends the data sent in answer to a LOCAL INFILE request
+			if _, err := handler.dbConnection.Write(packet.Dump()); err != nil {
+				clientLog.WithError(err).WithField(logging.FieldKeyEventCode, logging.EventCodeErrorNetworkWrite).
+					Debugln("Can't write send packet to db")
+				errCh <- base.NewClientProxyError(err)
+				return
+			}
+			continue
+		}
 		cmd := data[0]
 		data = data[1:]
 		handler.currentCommand = cmd
